@@ -644,3 +644,12 @@ def p16_h10(ctx):
 
 
 RULES.append(p16_h10)
+
+
+@rule("P17", doc="a freshly created e-node is queued with PendingType::Full, unconditionally (C14.A4): symmetry and redundancy of the new class are consequences of the equations already asserted and are derived only by the full pass")
+def p17_a4(ctx):
+    from . import c14
+    c14.a4(ctx)
+
+
+RULES.append(p17_a4)
